@@ -20,6 +20,10 @@ type Enum struct {
 	Opts   []string
 	// descriptions of options, by option name (single line)
 	OptDesc map[string]string
+	// `number = N` attributes written on options, by option name: parsed and IGNORED by the
+	// compiler (numbers derive from the position only), so they are not part of the model's
+	// syntax - a surface form like the others the printer chooses
+	OptNum map[string]int
 }
 
 // Field kinds: scalar objref objinline oneofref oneofinline enumref enuminline array map.
